@@ -576,6 +576,11 @@ def locks_compare(sc, r, out_lines, exp, t="t1"):
             continue
         bk = x["bk"]
         x["X"] = len(p) > 12 and p[12] == "X"
+        # committer.primaryKey (pessimistic transactions, while the transaction is open)
+        if len(p) > 13 and "primary" in bk and x["op"] not in ("commit", "rollback") and p[9] == "1":
+            mp = kname.get(p[13]) if p[13] != "-" else ""
+            if mp != bk["primary"]:
+                bad.append(f"step {x['i']} ({x['op']}): primary model={mp!r} client={bk['primary']!r}")
         m = {"locked": dec(p[3]), "locked_cnt": int(p[4]), "agg": p[5] == "1", "agg_cur": dec(p[6]), "agg_prev": dec(p[7])}
         for fld in ("locked", "locked_cnt", "agg", "agg_cur", "agg_prev"):
             if m[fld] != bk[fld]:
